@@ -124,6 +124,8 @@ impl HeapBuffer {
         //   allocated with `capacity` bytes, which is greater than or equal to `text.len()`.
         // - src and dst don't overlap because we allocated dst just now.
         // - `buf` is unique, and `text.len()` bytes of valid UTF-8 are initialized.
+        #[cfg(feature = "verif-hooks")]
+        crate::verif_hooks::note_copy(text.as_ptr(), buf.ptr.as_ptr(), text.len());
         unsafe {
             ptr::copy_nonoverlapping(text.as_ptr(), buf.ptr.as_ptr(), text.len());
             buf.set_len(text.len());
